@@ -432,6 +432,8 @@ def r4(ctx: Ctx) -> None:
                     ctx.holds(None, node, f"module-level container {names[0]} in {mi.name} is never changed", "a table that is only read")
                 elif use == "memo":
                     ctx.unrec(None, node, f"module-level mutable container {names[0]} in {mi.name}", "it is used as a keyed memo (entries looked up and stored under a key, never walked): whether an entry kept from an earlier run can change an outcome is not decided")
+                elif use == "lazy":
+                    ctx.unrec(None, node, f"module-level mutable container {names[0]} in {mi.name}", "it is filled once, on first use, and only read afterwards: whether what it is filled with can differ from run to run is not decided")
                 else:
                     ctx.violated(None, node, f"module-level mutable container {', '.join(names)} in {mi.name}", "no process-wide mutable state", ast.unparse(node.value)[:60])
     for cname, ci in ctx.program.classes.items():
@@ -459,10 +461,20 @@ def _module_container_use(tree: ast.Module, name: str) -> str:
         for c in ast.iter_child_nodes(n):
             parents[id(c)] = n
     mutated = keyed_write = walked = escaped = False
+    fills = 0
     for n in ast.walk(tree):
         if not (isinstance(n, ast.Name) and n.id == name):
             continue
         par = parents.get(id(n))
+        if isinstance(par, ast.Subscript) and par.value is n and isinstance(par.ctx, ast.Store) and isinstance(par.slice, ast.Slice) and par.slice.lower is None and par.slice.upper is None and par.slice.step is None:
+            # X[:] = ...  directly under `if len(X) == 0:` / `if not X:` -- the table is filled on first use and then only read
+            st = parents.get(id(par))
+            guard = parents.get(id(st)) if st is not None else None
+            if isinstance(guard, ast.If) and st in guard.body:
+                t = ast.unparse(guard.test).replace(" ", "")
+                if t in (f"len({name})==0", f"not{name}", f"0==len({name})", f"{name}==[]"):
+                    fills += 1
+                    continue
         if isinstance(n.ctx, ast.Store):
             if isinstance(par, (ast.Assign, ast.AnnAssign)) and parents.get(id(par)) is tree:
                 continue  # the definition itself
@@ -494,6 +506,8 @@ def _module_container_use(tree: ast.Module, name: str) -> str:
             walked = True
             continue
         escaped = True
+    if fills and not mutated and not keyed_write:
+        return "lazy"
     if mutated or (keyed_write and (walked or escaped)):
         return "other"
     if keyed_write:
